@@ -503,9 +503,9 @@ fn c14_private(out: &mut Out, rng: &mut Rng, thorough: bool, t0: std::time::Inst
     let mut jobs: Vec<Job> = vec![];
     for &n in &sizes {
         let reps = match (n, thorough) {
-            (1, false) => 8,
-            (2, false) => 26,
-            (_, false) => 5,
+            (1, false) => 6,
+            (2, false) => 18,
+            (_, false) => 3,
             (1, true) => 120,
             (2, true) => 400,
             (3, true) => 160,
@@ -551,7 +551,9 @@ fn c14_private(out: &mut Out, rng: &mut Rng, thorough: bool, t0: std::time::Inst
             jobs.push(Job { n, ch, tag, prove: rep % 10 == 0 });
         }
     }
-    // in chunks, so that provers handed back by accepted commits are reused by later cases (a rejected commit drops its prover)
+    // in chunks, likely-accepted vectors first, so that provers handed back by accepted commits are reused by later cases
+    // (a rejected commit drops its prover)
+    jobs.sort_by_key(|j| !(j.tag == "compatible" || j.tag.starts_with("max-amounts") || j.tag.starts_with("accounts-differ")));
     let mut obs: Vec<CommitObs> = vec![];
     for chunk in jobs.chunks(8) {
         obs.extend(chunk.par_iter().map(|j| private_commit(&ctx, j.n, &j.ch, j.prove)).collect::<Vec<_>>());
@@ -810,16 +812,18 @@ fn c14_public(out: &mut Out, rng: &mut Rng, thorough: bool, t0: std::time::Insta
         ("assets-differ".into(), vec![a.clone(), c.clone()]),
         ("fees-differ".into(), vec![a.clone(), d.clone()]),
         ("only-template".into(), vec![t.clone()]),
-        ("empty".into(), vec![]),
-        ("too-many".into(), vec![a.clone(), a2.clone(), a.clone()]),
         ("tampered".into(), vec![tamper_proof(&reals[0], 1, 9)]),
         ("pi-len".into(), vec![relen_proof(&reals[0], false)]),
         ("odd-dummy-then-real".into(), vec![t2.clone(), a.clone()]),
-        ("real-then-template".into(), vec![a.clone(), t.clone()]),
         ("incompatible-and-tampered".into(), vec![b.clone(), tamper_proof(&reals[3], 2, 1)]),
-        ("same-proof-twice".into(), vec![a.clone(), a.clone()]),
     ];
-    let extra = if thorough { 60 } else { 4 };
+    if thorough {
+        vectors.push(("empty".into(), vec![]));
+        vectors.push(("too-many".into(), vec![a.clone(), a2.clone(), a.clone(), a2.clone()]));
+        vectors.push(("real-then-template".into(), vec![a.clone(), t.clone()]));
+        vectors.push(("same-proof-twice".into(), vec![a.clone(), a.clone()]));
+    }
+    let extra = if thorough { 60 } else { 1 };
     for _ in 0..extra {
         let k = rng.below(4) as usize;
         let v: Vec<(String, Child)> = (0..k).map(|_| rng.pick(&catalogue).clone()).collect();
@@ -828,11 +832,12 @@ fn c14_public(out: &mut Out, rng: &mut Rng, thorough: bool, t0: std::time::Insta
     let mut jobs: Vec<(usize, String, Vec<Child>, bool)> = vec![];
     for &m in &sizes {
         for (i, (tag, v)) in vectors.iter().enumerate() {
-            jobs.push((m, tag.clone(), v.clone(), i < 2));
+            jobs.push((m, tag.clone(), v.clone(), i < 1));
         }
     }
+    jobs.sort_by_key(|(_, tag, _, _)| !(tag == "one-real" || tag == "two-real" || tag == "odd-dummy-then-real" || tag == "real-then-template" || tag == "same-proof-twice"));
     let mut obs: Vec<CommitObs> = vec![];
-    for chunk in jobs.chunks(6) {
+    for chunk in jobs.chunks(4) {
         obs.extend(chunk.par_iter().map(|(m, _, v, pr)| public_commit(&ctx, *m, v, *pr)).collect::<Vec<_>>());
     }
     let mut n_ok = 0;
